@@ -285,15 +285,15 @@ theorem NoRep.cycStep {s : Sys} (h : NoRep s) :
       rw [this.2] at e
       cases e
     · split
-      · exact ⟨h.withCyc _, fun rs e => by cases e⟩
-      · split <;> exact ⟨h.withCyc _, fun rs e => by cases e⟩
-    · exact ⟨h.withCyc _, fun rs e => by cases e⟩
-    · exact ⟨h.withCyc _, fun rs e => by cases e⟩
+      · first | exact ⟨h.withCyc _, fun rs e => by cases e⟩ | exact ⟨(h.withG _).withCyc _, fun rs e => by cases e⟩
+      · split <;> first | exact ⟨h.withCyc _, fun rs e => by cases e⟩ | exact ⟨(h.withG _).withCyc _, fun rs e => by cases e⟩
+    · first | exact ⟨h.withCyc _, fun rs e => by cases e⟩ | exact ⟨(h.withG _).withCyc _, fun rs e => by cases e⟩
+    · first | exact ⟨h.withCyc _, fun rs e => by cases e⟩ | exact ⟨(h.withG _).withCyc _, fun rs e => by cases e⟩
     · split
-      · split <;> exact ⟨h.withCyc _, fun rs e => by cases e⟩
+      · split <;> first | exact ⟨h.withCyc _, fun rs e => by cases e⟩ | exact ⟨(h.withG _).withCyc _, fun rs e => by cases e⟩
       · split
-        · split <;> exact ⟨h.withCyc _, fun rs e => by cases e⟩
-        · exact ⟨h.withCyc _, fun rs e => by cases e⟩
+        · split <;> first | exact ⟨h.withCyc _, fun rs e => by cases e⟩ | exact ⟨(h.withG _).withCyc _, fun rs e => by cases e⟩
+        · first | exact ⟨h.withCyc _, fun rs e => by cases e⟩ | exact ⟨(h.withG _).withCyc _, fun rs e => by cases e⟩
 
 theorem NoRep.cycBegin {s : Sys} (h : NoRep s) : NoRep s.cycBegin.1 := by
   unfold Sys.cycBegin
